@@ -268,7 +268,13 @@ func Msg(v *Vec, m *sipsp.PSIPMsg, o MsgOpt) {
 		if m.RawMsg != nil {
 			v.B("RawMsg.nil", false)
 			v.Bytes("Buf", m.Buf, v.Shift)
-			v.Off("RawMsg.start", cap(m.Buf)-cap(m.RawMsg), false)
+			// where the raw message sits inside Buf - when it does: after an error verdict a
+			// library may hand out a RawMsg that is not a part of Buf (nothing says it is)
+			if st := cap(m.Buf) - cap(m.RawMsg); st >= 0 && st+len(m.RawMsg) <= len(m.Buf) && (len(m.RawMsg) == 0 || &m.Buf[st] == &m.RawMsg[0]) {
+				v.Off("RawMsg.start", st, false)
+			} else {
+				v.I("RawMsg.start(not inside Buf)", -1)
+			}
 		} else {
 			v.B("RawMsg.nil", true)
 		}
